@@ -457,7 +457,11 @@ var script = []hist.Step{
 	{Op: "lfsckpt"},
 	{Op: "wtx", Frames: [][2]uint64{{2, 82}}, NewSize: 3},
 	{Op: "drop"},
-	{Op: "rtx", Writes: map[uint32]uint64{1: 91, 2: 92}, NewSize: 2}, // recreated
+	{Op: "rtx", Writes: map[uint32]uint64{1: 91, 2: 92}, NewSize: 2, Spill: 2}, // recreated; pages spilled before page 1 is written
+	{Op: "rtx", Writes: map[uint32]uint64{2: 102, 3: 103}, NewSize: 3},
+	{Op: "drop"},
+	{Op: "rtx", Writes: map[uint32]uint64{1: 111, 2: 112, 3: 113}, NewSize: 3, Spill: 1, Outcome: int(lfs.RollbackAfterWrite)}, // recreation rolled back after a spill
+	{Op: "rtx", Writes: map[uint32]uint64{1: 121}, NewSize: 1, JMode: 1},
 }
 
 // script2: a transaction whose journal is synced after 64 records and continues in a second segment: with 512-byte
@@ -506,6 +510,10 @@ func localHistories(c *common.Ctx, r *common.Rand, idx int, wal bool) error {
 		script = script2()
 	} else if idx == -3 {
 		script = script3
+	} else if idx == -8 {
+		script = script3 // at the largest page size
+	} else if idx == -7 {
+		script = hist.UnwrittenGrowthSteps()
 	} else if idx <= -4 {
 		script = script4
 	}
@@ -521,6 +529,9 @@ func localHistories(c *common.Ctx, r *common.Rand, idx int, wal bool) error {
 	}
 	if idx <= -4 {
 		cfg.PageSize = []int{512, 1024, 4096}[(-idx-4)%3]
+	}
+	if idx == -8 {
+		cfg.PageSize, cfg.BackToRollback = 65536, true
 	}
 	if idx == -3 {
 		cfg.BackToRollback = true
@@ -793,6 +804,12 @@ func Run(c *common.Ctx) error {
 		}
 	}
 	if err := localHistories(c, c.Rng.Fork(), -2, false); err != nil {
+		return err
+	}
+	if err := localHistories(c, c.Rng.Fork(), -7, false); err != nil {
+		return err
+	}
+	if err := localHistories(c, c.Rng.Fork(), -8, true); err != nil {
 		return err
 	}
 	for i := 0; i < c.Pick(4, 30); i++ {
